@@ -716,6 +716,7 @@ func init() {
 			out = append(out, limitScenario(n, false))
 		}
 		out = append(out, limitScenario(9, true), limitScenario(10, true))
+		out = append(out, generationScenarios(tier)...)
 		return out
 	}})
 }
